@@ -312,6 +312,27 @@ def _arith(case):
     got = fpnum_fraction(r)
     if got != exp:
         return fail('FPNum.' + op, '{}({}, {}) denotes {} expected {}'.format(op, case['a'], case['b'], got, exp), cls=[tag])
+    # the operands are values: after taking part in an operation they still denote the same rational and still convert
+    # back to the bit pattern they were built from
+    for nm, obj, d, v in (('left', a, case['a'], va), ('right', b, case['b'], vb)):
+        if fpnum_fraction(obj) != v:
+            return fail('FPNum.operand_changed|' + op, 'after {}({}, {}) the {} operand denotes {} instead of {}'.format(
+                op, case['a'], case['b'], nm, fpnum_fraction(obj), v), cls=[tag])
+        fmt, bits = (d[2], d[1]) if d[0] == 'b' else (('dp', float_to_bits(float(d[1]), 'dp')) if d[0] == 'f' else (None, None))
+        if fmt is None:
+            continue
+        import io
+        import contextlib
+        out = io.StringIO()
+        try:
+            with contextlib.redirect_stdout(out):
+                back = obj.convert(fmt)
+        except Exception as e:
+            return fail('FPNum.operand_round_trip|{}|exc:{}'.format(op, type(e).__name__),
+                        'after {}({}, {}) converting the {} operand back to {} raised {!r} {}'.format(op, case['a'], case['b'], nm, fmt, e, out.getvalue()[:80]), cls=[tag])
+        if back != bits:
+            return fail('FPNum.operand_round_trip|' + op, 'after {}({}, {}) the {} operand converts to {:#x} instead of {:#x}'.format(
+                op, case['a'], case['b'], nm, back, bits), cls=[tag])
     return ok(nt, [tag])
 
 
